@@ -239,7 +239,7 @@ Proof. intros Hc. unfold get_id, res_sim. simpl. split; auto. rewrite (from_driv
 
 Lemma driver_generic_erase c m : is_monitor st c = false -> res_sim (driver_generic (core st) c m) (driver_generic st c m).
 Proof.
-  intros Hc. unfold driver_generic, res_sim. destruct (b_type m); simpl; split; auto.
+  intros Hc. unfold driver_generic, res_sim. destruct (b_type m) as [[| | |]|n]; simpl; split; auto.
   rewrite (error_reply_erase c m _ Hc). reflexivity.
 Qed.
 
